@@ -82,7 +82,14 @@ def factory(clsname):
             return SymlinkNode(target)
 
         return make_link
+    if clsname == "MixNM":
+        # a different NodeMixin-based class per node (they may share a tree)
+        makers = [factory("Node"), factory("AnyNode"), factory("PlainNM"), factory("SymlinkNode")]
+        return lambda label: makers[int(label) % 4](label)
+    if clsname == "MixLM":
+        makers = [factory("SlotLM"), factory("DictLM")]
+        return lambda label: makers[int(label) % 2](label)
     raise ValueError(clsname)
 
 
-TREE_CLASSES = ["Node", "AnyNode", "PlainNM", "SlotLM", "DictLM", "SymlinkNode"]
+TREE_CLASSES = ["Node", "AnyNode", "PlainNM", "SlotLM", "DictLM", "SymlinkNode", "MixNM", "MixLM"]
